@@ -307,6 +307,13 @@ pub fn apply(doc: &mut Vec<u8>, f: RestFault, rng: &mut Rng, other: &[u8]) -> bo
                     p = f.0 + rng.below_usize(f.1 - f.0);
                 }
             }
+            if rng.chance(1, 16) {
+                // a character from outside Latin-1 dropped into the mappings text (raw UTF-8):
+                // code that walks the text by `char` sees a code point far above 255
+                let ins = *rng.pick(&["€", "—", "Ā", "\u{2028}", "👌", "日"]);
+                doc.splice(p..p + 1, ins.bytes());
+                return true;
+            }
             let cur = doc[p];
             let cur_digit = B64.iter().position(|&c| c == cur);
             doc[p] = match rng.below(40) {
